@@ -398,6 +398,20 @@ def execStart (s : St) (a : Nat) (h : Nat) : St × Nat :=
                     failedQ := if on then s.failedQ else s.failedQ ++ [k] }
   (s.setActor a (fun x => { x with activities := insertAct x.activities k }), k)
 
+/-- `ExecImpl::start` of a parallel execution (`Exec::set_hosts`: `hosts_` = the whole list, in the order given) under the
+ptask_L07 host model: `host_model->execute_parallel(get_hosts(), …)` = `new L07Action` (no bytes: the action's variable is
+expanded on the cpu constraint of EVERY host of the list, so `cancel_actions` of any of them fails it:
+`cpuCancelActions`).  The constructor does not look at `is_on()`: on an off host the action starts like any other and is
+failed by the "none of the model has failed" test of `HostL07Model::update_actions_state` at the next date — an event
+whose date the model does not predict (`complete`, after which `finishExec` sees the off host: FAILED).  Under that
+host model a one-host execution (`CpuL07::execution_start`) is the same action with a one-element list. -/
+def pexecStart (s : St) (a : Nat) (hs : List Nat) : St × Nat :=
+  let k := s.nActs
+  let s := { s with nActs := k + 1,
+                    acts := upd s.acts k { kind := .exec, state := .running, hosts := hs, owner := some a,
+                                           action := some .started } }
+  (s.setActor a (fun x => { x with activities := insertAct x.activities k }), k)
+
 /-- `ActorImpl::sleep` (the issuer's host is on, or the issuer would be dead) -/
 def sleepStart (s : St) (a : Nat) : St × Nat :=
   let k := s.nActs
@@ -476,6 +490,7 @@ inductive Ev where
   | irecv (a m : Nat)
   | sendto (a hf ht : Nat)           -- Comm::sendto_async (start only)
   | execStart (a h : Nat)
+  | pexecStart (a : Nat) (hs : List Nat)   -- parallel execution on a host list (ptask_L07), start only
   | sleep (a : Nat)                  -- sleep_for: start + wait
   | wait (a k : Nat)
   | waitAny (a : Nat) (ks : List Nat)
@@ -495,6 +510,7 @@ def step (s : St) (e : Ev) : St :=
   | .irecv a m => if alive s a then (irecv s a m).1 else s
   | .sendto a hf ht => if alive s a then (sendto s hf ht).1 else s
   | .execStart a h => if alive s a then (execStart s a h).1 else s
+  | .pexecStart a hs => if alive s a then (pexecStart s a hs).1 else s
   | .sleep a => if alive s a then let (s, k) := sleepStart s a; waitOn s a k else s
   | .wait a k => if alive s a then waitOn s a k else s
   | .waitAny a ks => if alive s a then waitAny s a ks else s
